@@ -19,6 +19,7 @@ mod ops_hash;
 mod ops_misc;
 mod wl;
 mod wl_enc;
+mod wl_hash;
 
 use serde_json::{json, Value};
 use std::fs::File;
